@@ -177,6 +177,9 @@ def _work(args):
             if 'call' in ops:
                 obs += case.obligations_call()
                 out['paths']['wrapper'] = case.paths_call
+                if tier == 'thorough' and prop in ('C01', 'C05', 'C16'):
+                    # re-entrancy tier: the user function may call the decorated function again (memoised recursion)
+                    obs += W.obligations_call_reentrant(case)
             if 'key' in ops:
                 obs += W.obligations_key_lookup(case, 'key')
             if 'lookup' in ops:
